@@ -19,6 +19,11 @@ func genC10(seed uint64) *Plan {
 	k["retry_timeout_ms"] = g.pick(8000, 20000)
 	k["txn_timeout_ms"] = g.pick(15000, 30000)
 	k["process_ms"] = g.pick(0, 0, 10, 300)
+	if g.pct(40) {
+		// application time between a poll's return and Begin: a rebalance
+		// can take the polled partitions away before the transaction opens
+		k["pre_begin_ms"] = g.pick(100, 1000, 4000, 8000)
+	}
 	k["kafka_ver"] = g.pick(0, 0, 1)
 	horizon := int64(40000)
 	w := Actor{Name: "prod.w0", Client: "w0"}
